@@ -146,7 +146,7 @@ class C12(Check):
                  'OS threads (parked/released one at a time)'],
         'stub': ['WSGI server and HTTP clients (SimGateway)', 'thread scheduling choice (BatonScheduler)'],
     }
-    required_probes = ('switch-in-clastic', 'switch-in-sinter', 'gran-ins', 'gran-line', 'threads-4')
+    required_probes = ('cold-application', 'switch-in-clastic', 'switch-in-sinter', 'gran-ins', 'gran-line', 'threads-4')
 
     # ---- generation ------------------------------------------------------
     def gen_config(self, rng):
@@ -192,7 +192,10 @@ class C12(Check):
                     pre.append([k, sch.choice(names)])
         pre.sort(key=lambda x: x[0])
         return {'world': 'threads', 'seed': seed, 'config': cfg, 'requests': reqs, 'granularity': gran,
-                'order': order, 'preempts': pre, 'mode': mode}
+                'order': order, 'preempts': pre, 'mode': mode,
+                # cold: the threads hit a freshly built application whose very first requests these are
+                # (lazy initialisation races); the expected responses come from a warm twin
+                'cold': S['config'].random() < 0.3}
 
     def extra_plans(self, tier, base_seed):
         """Complete depth-1 sweep: for ordered pairs (A, B): run A to yield
@@ -224,6 +227,7 @@ class C12(Check):
         res = RunResult()
         app = app_for(plan['config'])
         reqs = plan['requests']
+        cold = bool(plan.get('cold'))
         names = [r['name'] for r in reqs]
         order = [n for n in plan['order'] if n in names] + [n for n in names if n not in plan['order']]
         # sequential pass: warms caches, and IS the oracle ("served alone")
@@ -243,6 +247,9 @@ class C12(Check):
             def task(r=r):
                 got[r['name']] = do_request(app, r)
             tasks[r['name']] = task
+        if cold:
+            app = threads_app.build(plan['config'])      # nobody has called it yet
+            res.probe('cold-application')
         sched = BatonScheduler(order, plan['preempts'], plan['granularity'], WATCH)
         sched.run(tasks)
         res.steps = sched.steps
